@@ -8,6 +8,12 @@ export GOFLAGS=-mod=mod GOPROXY=off GOSUMDB=off GOTOOLCHAIN=local GOWORK=off
 [ -x /verif/bin/govc ] || sh /verif/setup.sh >/dev/null 2>&1
 WT0=$(mktemp -d /var/tmp/govc-mustfail-XXXXXX)
 trap 'rm -rf "$WT0"' EXIT
+# work on a snapshot of the contracts, claims, findings, seeds and the checker, so that /verif can be edited meanwhile
+SNAP="$WT0/verif"
+mkdir -p "$SNAP"
+cp -r /verif/contracts /verif/claims /verif/seeded /verif/known_findings.json "$SNAP"/
+cp /verif/bin/govc "$SNAP/govc"
+export VERIF_ROOT="$SNAP"
 # a scratch clone (so that fix commits can be reverted with a three-way merge), outside /repo and /verif
 git clone -q /repo "$WT0/r" || exit 2
 WT="$WT0/r"
@@ -15,7 +21,7 @@ cp /repo/go.work /repo/go.work.sum "$WT"/ 2>/dev/null
 git -C "$WT" config user.email mustfail@example.invalid; git -C "$WT" config user.name mustfail
 fail=0
 run() { # label prop
-  full=$(/verif/bin/govc check -repo "$WT" -prop "$2" -no-evidence 2>&1)
+  full=$("$SNAP/govc" check -repo "$WT" -prop "$2" -no-evidence 2>&1)
   out=$(echo "$full" | tail -1)
   first=$(echo "$full" | grep "^  obligation:" | head -2 | sed 's/^  obligation: *//; s#github.com/risor-io/risor/##' | tr '\n' ' ')
   case "$out" in
@@ -27,9 +33,9 @@ run() { # label prop
 clean() { git -C "$WT" reset -q --hard HEAD; git -C "$WT" clean -q -fd -e go.work -e go.work.sum; }
 seeds=""; kfs=""
 for a in "$@"; do case "$a" in KF-*) kfs="$kfs $a" ;; *) seeds="$seeds $a" ;; esac; done
-[ $# -eq 0 ] && seeds=$(ls /verif/seeded)
+[ $# -eq 0 ] && seeds=$(ls "$SNAP"/seeded)
 for id in $seeds; do
-  git -C "$WT" apply /verif/seeded/$id/patch.diff 2>/dev/null || (cd "$WT" && patch -p1 -s < /verif/seeded/$id/patch.diff) || { echo "ERROR   seed $id does not apply"; fail=1; clean; continue; }
+  git -C "$WT" apply "$SNAP"/seeded/$id/patch.diff 2>/dev/null || (cd "$WT" && patch -p1 -s < "$SNAP"/seeded/$id/patch.diff) || { echo "ERROR   seed $id does not apply"; fail=1; clean; continue; }
   run "seed $id" "$(echo $id | cut -c1-3)"
   clean
 done
@@ -38,7 +44,7 @@ if [ $# -eq 0 ] || [ -n "$kfs" ]; then
 import json,sys
 want=set(sys.argv[1:])
 seen=set()
-for f in json.load(open('/verif/known_findings.json'))['findings']:
+for f in json.load(open(__import__('os').environ['VERIF_ROOT']+'/known_findings.json'))['findings']:
     if f.get('status')=='fixed' and (f['commit'],f['property']) not in seen and (not want or f['kf'] in want):
         seen.add((f['commit'],f['property'])); print(f['kf'],f['property'],f['commit'])
 PY
